@@ -36,6 +36,13 @@ func updateMapAppendFunc(t *tType) {
 		t.AppendFunc = appendMapAnyAny
 		return
 	}
+	if t.K.T == tDOUBLE {
+		// the predefined funcs range over map[float64]V as map[uint64]V. float64 keys don't hash
+		// like uint64 keys, and while a map is growing the runtime iterator rehashes the keys of old
+		// buckets with the hasher of the static type: entries get skipped or visited twice.
+		t.AppendFunc = appendMapAnyAny
+		return
+	}
 	f, ok := mapAppendFuncs[struct{ k, v ttype }{k: t.K.T, v: t.V.T}]
 	if ok {
 		t.AppendFunc = f
